@@ -54,7 +54,9 @@ MANIFEST = {
             "faults (short reads, EIO) and per-file enumeration of every "
             "truncation offset; oracle: exact round trip when fault free, "
             "three-valued reference readers for damaged in-house formats, "
-            "exception contract for gml/dot.",
+            "exception contract for gml/dot; files are also loaded through "
+            "the command-line graph argument (incl. cyclic files offered as "
+            "dag).",
     "design_ref": "DESIGN.md 4.7",
     "note": "Sampling plus per-file truncation enumeration; third-party "
             "gml/dot parsers are only held to the exception contract.",
